@@ -12,6 +12,10 @@ CLAIMED = {
             "runtime monitor: real Provisioner.Schedule on generated worlds; every placement judged by an independent admissibility oracle (upstream nodeaffinity/toleration/pod-request code + first-principles host ports and sums) on every concrete node each launch option can become",
             "Thousands of generated worlds (catalogs with unavailable / overridden / reserved offerings, NodePools over all operators, daemonsets, managed nodes grown through the real provision→launch→register→initialize pipeline, unmanaged and deleting nodes) x pod batches x {preference policy, minValues policy, parallelism, ReservedCapacity}; each placement on an existing node is checked against provider/API ground truth, each new NodeClaim against every instance-type option x available compatible offering x concrete label assignment. Held-on-observed.",
             "Trusts the oracle (upstream k8s matchers, 300 lines of first-principles checks), the fake API server and the hostile provider. Volume limits / PV zones are not generated yet. One recorded finding (unsatisfiable conjunction represented as DoesNotExist)."),
+    "C02": ("exploration", "DESIGN.md §3 C02",
+            "runtime monitoring of the real Provisioner.Schedule with a realisation-enumerating end-state oracle written from the Kubernetes documentation / kube-scheduler filter semantics (shares no code with Karpenter's topology code; upstream label-selector, nodeaffinity and toleration matchers only), plus a Go race detector pass over parallel template evaluation (diagnostic)",
+            "Each generated world (catalog with partly unavailable zones, 1-3 NodePools with zone / capacity-type / custom-key requirements and taints, labelled namespaces, unmanaged nodes incl. ones lacking topology labels, terminating / terminal pods, deleting nodes, pre-existing skew and anti-affinity replicas bound through the real pipeline) is scheduled three times by the real Provisioner.Schedule with 1-3 deployments carrying required / preferred pod (anti-)affinity (namespaces, namespaceSelector) and DoNotSchedule / ScheduleAnyway spreads (maxSkew 1-3, minDomains, both node inclusion policies, matchLabelKeys) under PRNG-chosen preference policy and parallelism. Every pass is judged in EVERY concrete assignment of (zone, capacity-type, custom key) to the new NodeClaims (instance-type option x available offering x custom values, capped at 512): required anti-affinity in both directions incl. running pods, required affinity with the first-pod exception decided by cycle detection over commit orders, and a final-state necessary condition for maxSkew flagged only if every defensible reading (first remaining node-affinity term vs OR of all, raw vs persistent taints, deleting node present or gone, ...) flags. Two genuine defects fixed, five recorded. 16 of 17 mutants caught.",
+            "The spread check is a necessary end-state condition (pre-existing skew is not judged, admission order is not replayed); root-cause classification only names the violation key (known-finding matching relies on it; anything it cannot attribute keeps a generic key and alarms); pod node constraints limited to zone / capacity-type / one custom key; Requirement.Any() is unseeded, so custom label draws differ between replays."),
     "C03": ("exploration", "DESIGN.md §3 C03",
             "runtime monitor: synchronous API-boundary monitors (every NodeClaim create / provider Create), an independent capacity-sum oracle on provider / API ground truth, deterministic interleavings of other controllers at the API-call boundaries of a reconcile, a concurrent pass under the Go race detector, a bounded-progress (settling) check, panic capture via utilruntime.PanicHandlers, quiescent-barrier invariants plus a porcupine diagnostic on a bare NodePoolState",
             "Generated dynamic worlds with boundary limits on cpu / memory / nodes / an extended resource are driven for 3-8 rounds through the real Provisioner.Reconcile (batcher, Synced() gate, Schedule, CreateNodeClaims) and the real lifecycle controller against a hostile provider (largest, largest-by-limited-resource, random) with partial informer delivery, deletes and restarts; per-pool launched non-deleting capacity (Node capacity once registered, provider truth before) is compared with every limit after every provider Create and driver step. StaticCapacity worlds step the real static provisioning and deprovisioning, disruption (StaticDrift) with its queue, hash, nodeclaim-disruption, lifecycle and informer controllers in PRNG order, with other controllers interleaved at API-call boundaries and in real goroutines under -race, under replica and template edits, external deletes and API faults: NodeClaim count vs limits.nodes is checked synchronously at every create, settling at min(replicas, limit) within 40 fault-free rounds, and any panic is a violation. 8-16 goroutines also hammer a bare NodePoolState (Reserve grants checked against limit-(active+deleting+pending+reserved) at quiescent barriers). Five genuine defects found and fixed. Held-on-observed.",
